@@ -296,8 +296,9 @@ def _mk_seq_any_tagged(**s):
 SEQ_OPTC = T("SEQ", comps=[("a", INT, "req", None),
                            ("i", T("SEQ", comps=[("x", INT, "opt", None)]), "opt", None),
                            ("l", T("SEQOF", elem=INT).tagged(("I", "C", 0)), "opt", None),
-                           ("u", T("SET", comps=[("y", BOOL, "def", False)]), "opt", None)],
-             name="SEQ{a INT,i SEQ{x INT?}?,l [0]I SEQOF INT?,u SET{y BOOL=F}?}")
+                           ("u", T("SET", comps=[("y", BOOL, "def", False)]), "opt", None),
+                           ("m", T("SEQOF", elem=INT).tagged(("I", "C", 2)), "req", None)],
+             name="SEQ{a INT,i SEQ{x INT?}?,l [0]I SEQOF INT?,u SET{y BOOL=F}?,m [2]I SEQOF INT}")
 
 
 def _mk_seq_optc(**s):
@@ -308,10 +309,11 @@ def _mk_seq_optc(**s):
         av["l"] = [s["i1"], 5][: s["k"]]
     if s["hu"]:
         av["u"] = {"y": True} if s["f0"] else {}
+    av["m"] = [7][: s["k2"]]
     return av
 
 
-P_SEQ_OPTC = {"i0": SMALL, "i1": I(0, 1), "hi": B, "hx": B, "hl": B, "k": I(0, 2), "hu": B, "f0": B}
+P_SEQ_OPTC = {"i0": SMALL, "i1": I(0, 1), "hi": B, "hx": B, "hl": B, "k": I(0, 2), "hu": B, "f0": B, "k2": I(0, 1)}
 
 
 def constructed():
